@@ -358,8 +358,13 @@ class C15Same(Suite):
     # case = {"base": c04case, "alt": triples, "seq": [[graph 0|1, None | [var, term]] ...]}
     def gen(self, rng, i):
         r = rng.random()
-        if r < 0.3:
+        inter = None
+        if r < 0.25:
             b = self.gen_nested_filter(rng, i)
+        elif r < 0.45:
+            b, inter = self.gen_chain(rng, i)
+        elif r < 0.60:
+            b = self.gen_varpred(rng, i)
         else:
             b = gen_select_base(self.base, rng, i)
         q = b["q"]
@@ -377,10 +382,69 @@ class C15Same(Suite):
         seq = [[0, None], [0, i1], [0, None], [1, None], [1, i2], [0, None]]
         if rng.random() < 0.3:
             seq.insert(2, [0, i2])
-        return {"base": b, "alt": alt, "seq": seq}
+        # two evaluations of the one prepared object in flight at the same time:
+        # A (initBindings a) is started and k rows are taken, B (initBindings b) runs
+        # to the end, then A is finished
+        if inter is None:
+            inter = {"a": i1, "b": i2, "k": rng.choice([1, 1, 2])}
+        return {"base": b, "alt": alt, "seq": seq, "inter": inter}
+
+    def gen_chain(self, rng, i):
+        """a BGP chain ?1 P ?2 . ?2 Q ?3 [. ?3 R ?4] whose ends are pre-bound by different
+        initBindings (so that the run-time sort orders its patterns differently)"""
+        b = gen_select_base(self.base, rng, i)
+        b["ds"], b["named"] = False, []
+        ts = b["default"]
+        nodes = sorted({t[0] for t in ts})
+        extra = []
+        for t in list(ts):
+            if t[2] in (1, 2, 3) and rng.random() < 0.8:
+                extra.append([t[2], rng.choice([4, 5]), rng.choice(nodes + [t[0]])])
+        ts = sorted([list(t) for t in {tuple(t) for t in ts + extra}])
+        b["default"] = ts
+        t1 = rng.choice(ts)
+        nxt = [t for t in ts if t[0] == t1[2]]
+        t2 = rng.choice(nxt) if nxt else rng.choice(ts)
+        tps = [[-1, t1[1], -2], [-2, t2[1], -3]]
+        last = 3
+        nxt3 = [t for t in ts if t[0] == t2[2]]
+        if nxt3 and rng.random() < 0.4:
+            t3 = rng.choice(nxt3)
+            tps.append([-3, t3[1], -4])
+            last = 4
+        rng.shuffle(tps)
+        b["q"] = ["group", [["bgp", tps]]]
+        b["modifier"] = None
+        ends = {1: t1[0], last: (t2[2] if last == 3 else t3[2])}
+        a, bb = ([1, ends[1]], [last, ends[last]])
+        if rng.random() < 0.5:
+            a, bb = bb, a
+        return b, {"a": a, "b": bb, "k": 1}
+
+    def gen_varpred(self, rng, i):
+        """a variable predicate between two nodes that are constant or already bound:
+        the store is asked the (s, ?, o) shape"""
+        b = gen_select_base(self.base, rng, i)
+        b["ds"], b["named"] = False, []
+        ts = b["default"]
+        t1 = rng.choice(ts)
+        r = rng.random()
+        if r < 0.35:
+            tps = [[-1, t1[1], -2], [-2, -3, -1]]
+        elif r < 0.6:
+            tps = [[-1, t1[1], -2], [-1, -3, -2]]
+        elif r < 0.8:
+            tps = [[t1[0], -3, t1[2]]]
+        else:
+            tps = [[t1[2], -3, t1[0]], [-1, t1[1], t1[2]]]
+        rng.shuffle(tps)
+        b["q"] = ["group", [["bgp", tps]]]
+        b["modifier"] = None
+        return b
 
     def gen_nested_filter(self, rng, i):
-        """{ ?s :p ?v . { ?s :q ?w FILTER/BIND mentioning ?v } }: ?v is out of scope in the inner group"""
+        """{ ?s :p ?v . { ?s :q ?w FILTER/BIND mentioning ?v } }: ?v is out of scope in the inner group;
+        or mentioning ?s / ?w: the join variable that the lazy join pushes in and the group binds itself"""
         b = gen_select_base(self.base, rng, i)
         ts = b["default"]
         t1 = rng.choice(ts)
@@ -388,10 +452,13 @@ class C15Same(Suite):
         t2 = rng.choice(same_s)
         const = rng.choice([t1[2]] + [t[2] for t in ts])
         op = rng.choice(["=", "=", "!=", "<", ">"])
+        fv = rng.choice([2, 2, 2, 1, 1, 3])
+        if fv == 1:
+            const = rng.choice([t1[0]] + [t[0] for t in ts])
         if rng.random() < 0.6:
-            inner = [["bgp", [[-1, t2[1], -3]]], ["filter", ["cmp", op, ["var", 2], ["con", const]]]]
+            inner = [["bgp", [[-1, t2[1], -3]]], ["filter", ["cmp", op, ["var", fv], ["con", const]]]]
         else:
-            e = ["var", 2] if rng.random() < 0.5 else ["cmp", op, ["var", 2], ["con", const]]
+            e = ["var", fv] if rng.random() < 0.5 else ["cmp", op, ["var", fv], ["con", const]]
             inner = [["bgp", [[-1, t2[1], -3]]], ["bind", e, 4]]
         b["q"] = ["group", [["bgp", [[-1, t1[1], -2]]], ["group", inner]]]
         b["modifier"] = None
@@ -419,7 +486,34 @@ class C15Same(Suite):
         for k, t in enumerate(triples):
             (m1 if k % 2 == 0 else m2).add(t)
         out.append(ReadOnlyGraphAggregate([m1, m2]))
+        g = Graph(store=AuditableStore(SimpleMemory()))
+        for t in triples:
+            g.add(t)
+        out.append(g)
+        m1, m2 = Graph(store=SimpleMemory()), Graph(store=SimpleMemory())
+        for k, t in enumerate(triples):
+            (m1 if k % 3 == 0 else m2).add(t)
+        out.append(ReadOnlyGraphAggregate([m1, m2]))
         return out
+
+    N_BACKENDS = 5
+
+    @staticmethod
+    def _partial(store, q, k, between=None, **kw):
+        """start an evaluation, take k rows from the lazily produced result, optionally
+        run something else, then take the rest"""
+        try:
+            res = store.query(q, **kw)
+            it = iter(res)
+            for _ in range(k):
+                try:
+                    next(it)
+                except StopIteration:
+                    break
+            mid = between() if between else None
+            return _rows(res), mid
+        except Exception as e:  # noqa: BLE001
+            return {"err": type(e).__name__}, None
 
     def run_impl(self, case):
         b = case["base"]
@@ -455,13 +549,23 @@ class C15Same(Suite):
             fresh = _q(sts[gi], text, **kw)
             prep = _q(sts[gi], pq, **kw)
             groups.append([fresh, prep])
+        # interleaved evaluations of the one prepared object
+        it = case.get("inter")
+        if it:
+            kwa = {"initBindings": {Variable(f"v{it['a'][0]}"): term(it["a"][1])}}
+            kwb = {"initBindings": {Variable(f"v{it['b'][0]}"): term(it["b"][1])}}
+            fresh_a, _ = self._partial(store, text, it["k"], **kwa)
+            fresh_b = _q(store, text, **kwb)
+            prep_a, prep_b = self._partial(store, pq, it["k"], between=lambda: _q(store, pq, **kwb), **kwa)
+            groups.append([fresh_a, prep_a])
+            groups.append([fresh_b, prep_b if prep_b is not None else {"err": "not run"}])
         return groups
 
     def coq_case(self, case):
         b = case["base"]
         _, cs = self.stores(case)
         base = self.base.coq_case(b)
-        n_same = 3 + (0 if b["ds"] else 3)
+        n_same = 3 + (0 if b["ds"] else self.N_BACKENDS)
         groups = [c_group(base, [], n_same, "GNormal"),
                   c_group(self.base.coq_case(dict(b, modifier="DISTINCT")), [], 2, "GNormal")]
         coq_by_graph = [base, self.base.coq_case(cs[1])]
@@ -470,6 +574,9 @@ class C15Same(Suite):
                 groups.append(c_group(coq_by_graph[gi], [], 1, "GNormal"))
             else:
                 groups.append(c_group(coq_by_graph[gi], [], 0, "GNoModel"))
+        if case.get("inter"):
+            groups.append(c_group(base, [], 0, "GNoModel"))
+            groups.append(c_group(base, [], 0, "GNoModel"))
         return clist(groups)
 
     def coq_obs(self, obs):
@@ -499,6 +606,8 @@ class C15Same(Suite):
                 yield dict(case, seq=case["seq"][:i] + case["seq"][i + 1:])
         if b.get("modifier"):
             yield dict(case, base=dict(b, modifier=None))
+        if case.get("inter"):
+            yield dict(case, inter=None)
         for q in c04.shrink_group(b["q"]):
             yield dict(case, base=dict(b, q=q))
 
@@ -583,7 +692,10 @@ RULE = ("suite variants: every generated C04 SELECT case (12 % DISTINCT; 10 % 't
         "the triple patterns of every BGP shuffled, (b) with union branches and one pair of adjacent join operands per group swapped, (c) with "
         "variables renamed by a random permutation, (e) with initBindings against a VALUES row, and in 8 % with two prefixes for one namespace; "
         "suite same_query (no trigger predicate): prefix/BASE spellings, SimpleMemory / AuditableStore(Memory) / ReadOnlyGraphAggregate of two "
-        "disjoint graphs, DISTINCT and REDUCED against the harness-de-duplicated plain answer, and a sequence of 6-7 evaluations of ONE "
+        "disjoint graphs, AuditableStore(SimpleMemory) and an aggregate of SimpleMemory graphs (15 % of the cases ask a variable predicate "
+        "between two bound ends), DISTINCT and REDUCED against the harness-de-duplicated plain answer, two evaluations of one prepared object "
+        "in flight at the same time (A started, k rows taken, B with other initBindings run to the end, A finished; 20 % BGP chains whose two "
+        "ends are the pre-bound variables), and a sequence of 6-7 evaluations of ONE "
         "prepareQuery object on two graphs, with no / one / another initBindings (30 % of the cases are nested-group FILTER/BIND queries whose "
         "expression mentions a variable that is out of scope there), each step compared with freshly parsed text given the same initBindings; "
         "non-trivial = some observation has a solution")
